@@ -91,8 +91,13 @@ def check_split_suffix(ctx, rule: str) -> None:
     np_ = ctx.anchor_func("flow.record.adapter.split.SplitWriter._next_path")
     # the suffix: value derived from self.file_count that is interpolated into the path
     suf = None
+    from ..core import expand_aliases as _ea, single_assign_aliases as _saa
+    al_np = _saa(np_)
     for st in walk_no_nested(np_):
-        if isinstance(st, ast.Assign) and isinstance(st.targets[0], ast.Name) and "self.file_count" in norm(st.value):
+        # (the counter may be read once into a local: the suffix is the value that derives from it and is more than a plain copy)
+        copies_np = {k for k, v in al_np.items() if norm(v) == "self.file_count"}
+        if isinstance(st, ast.Assign) and isinstance(st.targets[0], ast.Name) and norm(st.value) != "self.file_count" and \
+                ("self.file_count" in norm(st.value) or any(isinstance(x, ast.Name) and x.id in copies_np for x in ast.walk(st.value))):
             suf = st
     if suf is None:
         raise AnalysisError(f"{rule}: suffix computation not found in _next_path")
@@ -102,7 +107,8 @@ def check_split_suffix(ctx, rule: str) -> None:
     ctx.check(not trunc and bool(pads), rule, "SplitWriter._next_path:suffix-injective",
               f"the part suffix `{norm(suf.value)}` truncates the part number (slice/modulo): once the number outgrows the suffix length an earlier part's name is reused and that "
               "part is overwritten", suf, "suffix pads the part number and never truncates it", key=f"{rule}:SplitWriter._next_path:suffix-truncates")
-    bump = [st for st in walk_no_nested(np_) if isinstance(st, ast.AugAssign) and norm(st.target) == "self.file_count"]
+    bump = [st for st in walk_no_nested(np_) if (isinstance(st, ast.AugAssign) and norm(st.target) == "self.file_count" and isinstance(st.op, ast.Add) and norm(st.value) == "1")
+            or (isinstance(st, ast.Assign) and len(st.targets) == 1 and norm(st.targets[0]) == "self.file_count" and norm(_ea(st.value, al_np)) == "self.file_count + 1")]
     ctx.check(len(bump) == 1 and ordkey(suf) < ordkey(bump[0]), rule, "SplitWriter._next_path:counter", "file_count is not advanced once per part after use", np_, "file_count += 1 after use")
 
 
